@@ -40,6 +40,13 @@ Definition stop_handler_threads_joins_all_four : bool :=
 (* stop_and_join(keep_alive=False) -- the explicit call, whatever the pool's own keep_alive setting -- stops the handler threads *)
 Definition stop_and_join_obeys_its_argument : bool :=
   follows_str "  if not keep_alive:" "    self._stop_handler_threads()" stop_and_join_body_obs.
+(* the progress-bar handler thread is created, started AND waited for with SIGINT ignored: an interrupt cannot land
+   between the start of the (non-daemon) thread and the moment the handler object is bound to the pool *)
+Definition progress_bar_thread_started_under_mask : bool :=
+  match progress_bar_enter_body with
+  | [a; b; c; d; e; f] => String.eqb b "  with DisableKeyboardInterruptSignal():" && String.eqb d "    self.thread.start()" &&
+                          String.eqb e "    self.thread_started.wait()" && String.eqb f "return self"
+  | _ => false end.
 Definition map_call_terminates_on_any_exception : bool :=
   has "except BaseException:" imap_unordered_body_obs && has "  self.terminate()" imap_unordered_body_obs &&
   has "    except BaseException:" imap_unordered_body_obs && has "      self.terminate()" imap_unordered_body_obs &&
@@ -121,6 +128,7 @@ Definition lstep (l : ledger) (o : pop) : ledger :=
   | OCallFails | OCallInterrupted =>
       (* a map call that raises -- a user exception, a timeout, a dead worker, KeyboardInterrupt at any point -- goes
          through terminate() before the exception leaves the call *)
-      if map_call_terminates_on_any_exception && terminate_clears_everything && stop_handler_threads_joins_all_four
+      if map_call_terminates_on_any_exception && terminate_clears_everything && stop_handler_threads_joins_all_four &&
+         progress_bar_thread_started_under_mask
       then mkL 0 0 false else l
   end.
